@@ -14,7 +14,9 @@ RULE = ('A scenario is one compression aggregator (uniform +- arithmetic coding,
         'with a simulator-owned initial key and a history of 3-50 rounds threaded through its CompressionState: single-client '
         'rounds over leaf classes (random, size 1, constant, all-zero, on-grid, huge dynamic range, half-way), multi-client '
         'rounds with weights including zeros, probe rounds from one state with cohort [A] and cohort [A, A] (randomness across '
-        'clients), repeated cohorts in consecutive rounds (randomness across rounds), retry and pickle-restart of the state; a '
+        'clients), repeated cohorts in consecutive rounds (randomness across rounds), retry and pickle-restart of the state; about a '
+        'tenth are large-cohort probes (66-260 identical clients, weights selecting one position at a time, so the quantised '
+        'tree of the client at each probed position is observed and must differ pairwise); a '
         'tenth of the scenarios is a long single-client history (R rounds) for the unbiasedness monitor. Monitors per round: '
         'Q1 finite + same structure, Q2 grid membership, Q3 distance to the exact weighted mean, Q4 pass-through, Q5 fresh '
         'randomness across clients, Q6 fresh randomness across rounds / key never repeats, Q7 running mean within the Hoeffding '
@@ -24,7 +26,7 @@ RULE = ('A scenario is one compression aggregator (uniform +- arithmetic coding,
 DISTINCT_MEASURE = 'distinct (aggregator, levels, leaf classes, weight pattern, op-kind sequence) hashes'
 PROBES = ('constant_leaf', 'zero_leaf_under_drive', 'size_one_leaf', 'zero_weight_client', 'twin_clients_round',
           'restart_mid_history', 'huge_dynamic_range', 'on_grid_leaf', 'bias_history', 'retry_round', 'zero_leaf',
-          'repeat_cohort_round')
+          'repeat_cohort_round', 'many_clients_round')
 ASSUMPTIONS = [
     'Q7 is a statistical monitor: an unbiased quantizer passes at every seed except with probability <= 1e-12 per coordinate '
     'family; a bias below the Hoeffding radius is invisible',
@@ -58,6 +60,10 @@ def generate(seed, tier):
   o = r.sub('ops')
   if g.chance(0.1) and sc['agg'] != 'drive':
     sc['bias'] = {'rounds': plan(tier)['bias_rounds'], 'size': o.choice([1, 3, 8, 16]), 'cls': o.choice(['random', 'half', 'huge'])}
+    return sc
+  if g.chance(0.09):
+    n = o.choice([66, 130, 200, 260])
+    sc['many'] = {'n': n, 'extra': [o.randint(0, n - 1) for _ in range(4)], 'warm_rounds': o.randint(0, 2)}
     return sc
   for _ in range(o.randint(3, 14)):
     k = o.weighted([('single', 6), ('multi', 5), ('twin', 2), ('repeat', 2), ('retry', 1), ('restart', 1)])
@@ -312,6 +318,40 @@ def execute(sc):
     trace.ev('bias', mean=mean.tolist(), R=R)
     return _out(trace, viols, probes, faults, ['bias'], {c}, evals, sc, True)
 
+  # ------------------------------------------------------------ large cohort: randomness across MANY clients
+  if 'many' in sc:
+    # N identical clients; weights select ONE position s at a time (weight-0 clients still consume their key), so the
+    # aggregate IS the quantised tree of the client at position s.  All calls start from the same state, hence the same
+    # key sequence: two positions give the same aggregate iff they were quantised with the same randomness.
+    m = sc['many']
+    N = m['n']
+    probes.inc('many_clients_round')
+    v = rs.uniform(-1, 1, size=(256,)).astype(np.float32)
+    tree = {'l0': v}
+    for w_ in range(m['warm_rounds']):
+      _, state = run_round(state, [(b'a', tree, 1.0)], f'warm-up {w_}')
+    S = sorted({p_ for p_ in (0, 1, 2, 31, 32, 33, 63, 64, 65, 127, 128, 129, 191, 192, 255, 256, N - 1) if p_ < N}
+               | {e_ % N for e_ in m['extra']})
+    qs = {}
+    for s_ in S:
+      cohort = [(b'c%d' % i, tree, 1.0 if i == s_ else 0.0) for i in range(N)]
+      got, _new = run_round_nokey(agg, state, cohort)
+      evals += 1
+      if got is None or not np.all(np.isfinite(got['l0'])):
+        violation('Q1', f'Q1:non-finite-output:{name}', f'{name} L={L}: {N} clients, weight on position {s_}')
+        continue
+      qs[s_] = got['l0']
+    pos = sorted(qs)
+    for i_, a_ in enumerate(pos):
+      for b_ in pos[i_ + 1:]:
+        if np.array_equal(qs[a_], qs[b_]):
+          violation('Q5', f'Q5:two-clients-quantized-with-the-same-randomness:{name}',
+                    f'{name} L={L}: in a cohort of {N} identical clients the clients at positions {a_} and {b_} are '
+                    f'quantised identically (256 coordinates)')
+          break
+    trace.ev('many', n=N, positions=pos, h=[hashlib.sha256(qs[p_].tobytes()).hexdigest()[:8] for p_ in pos])
+    return _out(trace, viols, probes, faults, ['many', N], {'random'}, evals, sc, True)
+
   # ------------------------------------------------------------ mixed history
   last = None   # (clients) of the previous round for 'repeat'
   last_out = None
@@ -382,7 +422,7 @@ def execute(sc):
     elif k == 'repeat':
       # the same cohort in two consecutive rounds (state threaded): a 256-coordinate random leaf makes a chance
       # coincidence of two independent quantizations impossible in practice (< 1e-40)
-      probes.inc('repeat_cohort_round')
+      probes.inc('repeat_cohort_round', 'many_clients_round')
       v = rs.uniform(-1, 1, size=(256,)).astype(np.float32)
       cohort = [(b'a', {'l0': v}, 1.0)]
       g1, state = run_round(state, cohort, label + ' first')
@@ -429,7 +469,7 @@ def run_round_nokey(agg, st, clients):
 
 def _out(trace, viols, probes, faults, kinds, classes, evals, sc, nontrivial):
   hkey = hashlib.sha256(repr((sc['agg'], sc['levels'], sorted(classes), kinds)).encode()).hexdigest()[:12]
-  sample = {'agg': sc['agg'], 'levels': sc['levels'], 'ops': [o[:2] if o[0] in ('single', 'multi') else o[:1] for o in sc['ops']][:14],
+  sample = {'agg': sc['agg'], 'levels': sc['levels'], 'many': sc.get('many'), 'ops': [o[:2] if o[0] in ('single', 'multi') else o[:1] for o in sc['ops']][:14],
             'bias': sc.get('bias')}
   return {'digest': trace.digest(), 'evaluations': max(evals, 1), 'violations': viols, 'probes': dict(probes),
           'faults': dict(faults), 'distinct': [hkey], 'nontrivial': [hkey] if nontrivial else [], 'sim_rounds': evals,
@@ -437,6 +477,10 @@ def _out(trace, viols, probes, faults, kinds, classes, evals, sc, nontrivial):
 
 
 def _simplify(sc):
+  if 'many' in sc:
+    if sc['many']['warm_rounds']:
+      yield dict(sc, many=dict(sc['many'], warm_rounds=0))
+    return
   if 'bias' in sc:
     if sc['bias']['size'] > 1:
       yield dict(sc, bias=dict(sc['bias'], size=1))
